@@ -390,10 +390,14 @@ struct Gen {
       Step st { X_XLIST }; int n = int(rng.below(4)); for (int k = 0; k < n; ++k) st.list.push_back(expr(depth + 1));
       return push(st);
    }
+   long long last_location[3] = { 0, 0, 0 };
    void maybe_locate(int stmt)
    {
       if (!o.locations || !rng.chance(45)) return;
       Step st { L_LOCATE }; st.a = stmt; st.num = o.file_base + (located % 5); st.num2 = 1 + (long long)rng.below(3000); st.num3 = rng.chance(70) ? 1 + (long long)rng.below(200) : 0;
+      // several statements on one source line (or a front end that records lines only): the location of the statement located last
+      if (located > 0 && rng.chance(30)) { st.num = last_location[0]; st.num2 = last_location[1]; st.num3 = last_location[2]; }
+      last_location[0] = st.num; last_location[1] = st.num2; last_location[2] = st.num3;
       ++located;
       mutate(stmt, st);
    }
